@@ -294,7 +294,44 @@ def rule_e(ctx):
     ctx.floor(R, 1)
 
 
+def rule_g(ctx):
+    R = "C05.g"
+    ctx.rule(R, "the Bregman shrink step compares like with like: _shrink subtracts the shrink factor from the inverse face weights (degree -1 in a "
+             "constant weight), so every shrink factor that _solve starts with has degree -1 as well (L / face_weights) -- with another power "
+             "of the weights the un-converged iterates, and with them the reported distance, do not scale linearly with a constant weight")
+    from ..degree import ANY, Degree, Mismatch, UNKNOWN
+
+    m = ctx.model
+    f = m.func(WAS, "WassersteinDistanceBregman._solve")
+
+    def base(t):
+        if t in ("self.face_weights", "self.cell_weights"):
+            return 1
+        if t in ("self.face_weights_inv",):
+            return -1
+        if t in ("self.L", "self.regularization") or t.startswith("self.grid") or t.startswith("self.options"):
+            return 0
+        return None
+    D = Degree(base, {}, None)
+    n = 0
+    for st in ast.walk(f.node):
+        if isinstance(st, ast.Assign) and len(st.targets) == 1 and isinstance(st.targets[0], ast.Name) and st.targets[0].id == "shrink_factor":
+            n += 1
+            ctx.instance(R)
+            try:
+                d = D.ev(st.value, {})
+            except Mismatch as e:
+                ctx.ob(R, f.qname, "the initial shrink factor has degree -1 in the weights", False, f"`{norm(st)[:80]}`: {e}", st, evidence=True)
+                continue
+            if d is UNKNOWN or d is None:
+                ctx.ob(R, f.qname, "the initial shrink factor has degree -1 in the weights", False, f"degree of `{norm(st)[:80]}` not found", st)
+            else:
+                ctx.ob(R, f.qname, "the initial shrink factor has degree -1 in the weights", d in (-1, ANY), f"`{norm(st)[:80]}` has degree {d} in a constant weight; the inverse face weights it is compared with have degree -1", st, evidence=True)
+    ctx.floor(R, 1)
+
+
 def run(ctx):
+    rule_g(ctx)
     from .common import rule_abs_tolerance
     _m = ctx.model
     rule_abs_tolerance(ctx, "C05.f", [f for mn in (WAS, "darsia.measure.emd", "darsia.utils.linalg") for k in _m.mod(mn).classes.values() for f in k.methods.values()] + list(_m.mod(WAS).funcs.values()),
